@@ -134,7 +134,7 @@ def make_proof(value, blind, H, exp, mantissa, minv, extra, rng, reserved=0, sma
         """discrete logs of every ring member when the generator is H = h*G"""
         return [[(bl[i] + (digs[i] - j) * scale * 4 ** i * h) % n for j in range(rsizes[i])] for i in range(rings)]
     return dict(C=C, proof=proof, soff=soff, scalars=flat, is_forged=is_forged, xoff=len(hdr) + len(signbytes), rings=rings, hdrlen=len(hdr), rsizes=rsizes,
-                e0=e0, s_nested=s, pubs=pubs, m=m, ring_secs=True, ring_secs_all=ring_secs_all)
+                e0=e0, s_nested=s, pubs=pubs, m=m, ring_secs=True, ring_secs_all=ring_secs_all, acc=acc)
 
 def make_proof_smallx(rng, extra, noncanon, mantissa=None):
     """adversarial prover for a proof whose FIRST digit commitment has a tiny x coordinate (x0 < 2^32 + 977), so that x0 + p still
